@@ -21,8 +21,10 @@ TxUDef == <<
   Tx(<<In(0,1,NF)>>, <<Out(903)>>, 1, [kind |-> "time", v |-> -2560]),         \* 8: nLockTime = MTP(base tip) = -5*512: non-final in 102, final in 103
   Tx(<<In(0,1,ST(97))>>, <<Out(904)>>, 2, NoLock),                             \* 9: BIP68 time lock 97*512 s on the coin of height 1: first satisfied at 103
   Tx(<<In(0,1,ST(96))>>, <<Out(905)>>, 2, NoLock),                             \* 10: BIP68 time lock 96*512 s: satisfied at 102
-  Tx(<<In(0,4,F)>>, <<Out(906)>>, 1, NoLock)                                   \* 11: coinbase of height 4: mature at 104
+  Tx(<<In(0,4,F)>>, <<Out(906)>>, 1, NoLock),                                  \* 11: coinbase of height 4: mature at 104
+  Tx(<<In(0,2,SH(101))>>, <<Out(803)>>, 99, NoLock),                           \* 12: like 5 with nVersion = 0xffffffff (code 99): BIP68 applies to every version >= 2
+  Tx(<<In(0,1,ST(97))>>, <<Out(907)>>, 98, NoLock)                             \* 13: like 9 with nVersion = 0x80000000 (code 98)
 >>
-ListsDef == { <<>>, <<1>>, <<2>>, <<3>>, <<4>>, <<5>>, <<6>>, <<7>>, <<8>>, <<9>>, <<10>>, <<11>> }
+ListsDef == { <<>>, <<1>>, <<2>>, <<3>>, <<4>>, <<5>>, <<6>>, <<7>>, <<8>>, <<9>>, <<10>>, <<11>>, <<12>>, <<13>> }
 BaseDef == << [v |-> 1000, h |-> 1], [v |-> 1000, h |-> 2], [v |-> 1000, h |-> 3], [v |-> 1000, h |-> 4] >>
 ====
